@@ -22,7 +22,7 @@ type Mutant struct {
 	File string // path relative to the repository
 	Old  string
 	New  string
-	Nth  int // 0: Old must be unique; k>0: replace the k-th occurrence
+	Nth  int    // 0: Old must be unique; k>0: replace the k-th occurrence
 	More []Edit // further unique replacements in the same file
 }
 
